@@ -106,6 +106,8 @@ def api_facts(summary, exact_names=False):
     for fname, f in summary.items():
         if fname.endswith("querier.go") or fname.endswith("db.go"):
             continue
+        # no emit option changes what a query file or models.go imports
+        facts[("imports", fname)] = sorted(f.get("import_names", []))
         for c in f.get("consts", []):
             if "-- name:" in c["value"]:
                 facts[("sql", c["value"].split("\n")[0])] = c["value"]
@@ -163,7 +165,8 @@ def run(tier, seed):
         rn = {"id": "Ident"} if rng.random() < 0.3 else None
         nm = rng.choice(["db", "db", ""])
         jobs, meta = [], []
-        sets = flagsets if tier != "quick" else ([flagsets[0], flagsets[-1]] + rng.sample(flagsets[1:-1], 14))
+        singles = [fs for fs in flagsets if len(fs) == 1]
+        sets = flagsets if tier != "quick" else ([flagsets[0], flagsets[-1]] + singles + rng.sample([fs for fs in flagsets[1:-1] if len(fs) > 1], 8))
         for fl in sets:
             variants = [("v1", "json", False), ("v1", "yaml", True), ("v2", "json", True), ("v2", "yaml", False)]
             if fl not in (flagsets[0], flagsets[-1]) and tier == "quick":
